@@ -287,6 +287,7 @@ func mkPub(id int, name string, r *rec) message.Publisher {
 type subscription struct {
 	topic string
 	in    chan *message.Message
+	dead  chan struct{} // closed when the subscription has ended (its handler stopped, the subscriber was closed)
 }
 
 type subCore struct {
@@ -299,7 +300,7 @@ type subCore struct {
 }
 
 func (s *subCore) Subscribe(ctx context.Context, topic string) (<-chan *message.Message, error) {
-	sub := &subscription{topic: topic, in: make(chan *message.Message)}
+	sub := &subscription{topic: topic, in: make(chan *message.Message), dead: make(chan struct{})}
 	s.mu.Lock()
 	s.subs = append(s.subs, sub)
 	s.mu.Unlock()
@@ -309,6 +310,7 @@ func (s *subCore) Subscribe(ctx context.Context, topic string) (<-chan *message.
 	out := make(chan *message.Message)
 	go func() {
 		defer close(out)
+		defer close(sub.dead)
 		for {
 			select {
 			case m := <-sub.in:
@@ -414,6 +416,7 @@ func parse(req string) (*request, bool) {
 	}
 	q := &request{subNames: map[int]string{}, pubNames: map[int]string{}, appWrapped: map[int]bool{}}
 	names := map[string]bool{}
+	stoppedName := map[int]bool{}
 	for _, t := range toks[1:] {
 		if t == "RUN" {
 			q.ops = append(q.ops, op{"RUN", 0})
@@ -421,6 +424,24 @@ func parse(req string) (*request, bool) {
 		}
 		if t == "K" {
 			q.ops = append(q.ops, op{"K", 0})
+			continue
+		}
+		if len(t) >= 2 && t[0] == 'T' && !strings.Contains(t, "=") { // Stop() of handler number n (position among the h= tokens)
+			i, err := strconv.Atoi(t[1:])
+			if err != nil || i < 0 || i >= len(q.hs) || stoppedName[i] {
+				return nil, false
+			}
+			stoppedName[i] = true
+			delete(names, q.hs[i].name) // the name is free again
+			q.ops = append(q.ops, op{"T", i})
+			continue
+		}
+		if len(t) >= 2 && t[0] == 'M' && !strings.Contains(t, "=") {
+			id, err := strconv.Atoi(t[1:])
+			if err != nil {
+				return nil, false
+			}
+			q.ops = append(q.ops, op{"M", id})
 			continue
 		}
 		if !strings.Contains(t, "=") && len(t) >= 2 && (t[0] == 'D' || t[0] == 'E') {
@@ -666,6 +687,7 @@ func runCase(req string) (obs string) {
 		}
 	}
 	var handles []*message.Handler
+	stopped := map[int]bool{}
 	// Run (first) / RunHandlers (later); afterwards every handler added so far has been started
 	runHandlers := func() string {
 		if !running {
@@ -705,6 +727,30 @@ func runCase(req string) (obs string) {
 			router.AddPublisherDecorators(pubDecorator(o.n, r))
 		case "E":
 			router.AddSubscriberDecorators(subDecorator(o.n, r))
+		case "T":
+			// handler.Stop(), wait until it has stopped (RunHandlers' goroutine has removed it from the router by then)
+			if o.n >= len(handles) {
+				closeRouter()
+				return "bad-op"
+			}
+			hd := handles[o.n]
+			select {
+			case <-hd.Started():
+			default:
+				closeRouter()
+				return "bad-op" // Stop panics on a handler that is not started
+			}
+			hd.Stop()
+			select {
+			case <-hd.Stopped():
+			case <-time.After(settleTimeout):
+				closeRouter()
+				return "timeout-stop"
+			}
+			stopped[o.n] = true
+		case "M":
+			// watermill's own transform publisher decorator (not recorded in the path; a transform that changes nothing)
+			router.AddPublisherDecorators(message.MessageTransformPublisherDecorator(func(*message.Message) {}))
 		case "D!":
 			router.AddPublisherDecorators(failOncePub(pubDecorator(o.n, r)))
 		case "E!":
@@ -769,6 +815,11 @@ func runCase(req string) (obs string) {
 		core.mu.Unlock()
 		for _, sub := range list {
 			sub := sub // go.mod says go 1.21: range variables are per loop
+			select {
+			case <-sub.dead: // the subscription of a handler that was stopped: nothing arrives there any more
+				continue
+			default:
+			}
 			f := &feed{sub: sub}
 			feeds = append(feeds, f)
 			var mine []*delivery
@@ -989,6 +1040,10 @@ func randomCase(rng *wh.Rng) string {
 		switch rng.Intn(6) {
 		case 0:
 			nextDec++
+			if rng.Intn(4) == 0 {
+				toks = append(toks, "M"+strconv.Itoa(nextDec)) // watermill's own transform publisher decorator
+				return
+			}
 			d := "D" + strconv.Itoa(nextDec)
 			if ranOnce && rng.Intn(3) == 0 {
 				d += "!" // fails the first time it is applied; only after Run (a failing Run cannot be retried)
@@ -1297,6 +1352,32 @@ func failingDecoratorCases(emit func(string, string)) {
 	}
 }
 
+// a handler is stopped, a new one is added under ITS NAME (and, in some, on its subscriber and topic) and started by
+// RunHandlers: it is a handler of its own - decorated like any other, context values inside the function and on the
+// outputs, outputs through every publisher decorator once; the stopped one receives nothing any more
+func stopAndReAddCases(emit func(string, string)) {
+	hx := wh.HexS
+	head := []string{"S1=" + hx("main.subA"), "S2=" + hx("main.subB"), "P1=" + hx("main.pubA"), "P2=" + hx("main.pubB")}
+	hA := fmt.Sprintf("h=%s:1:%s:p1:%s:0", hx("A"), hx("ta"), hx("oa"))
+	hB := fmt.Sprintf("h=%s:2:%s:p2:%s:1", hx("B"), hx("tb"), hx("ob"))
+	hA2 := fmt.Sprintf("h=%s:1:%s:p2:%s:0", hx("A"), hx("ta"), hx("oa2")) // same name, same subscriber and topic as A
+	hA3 := fmt.Sprintf("h=%s:2:%s:np:-:1", hx("A"), hx("tc"))             // same name, elsewhere, no publisher
+	ds := []string{
+		fmt.Sprintf("d=1:%s:1:f0.f1", hx("ta")), fmt.Sprintf("d=2:%s:2:c.f0", hx("tb")),
+		fmt.Sprintf("d=2:%s:3:f0", hx("tc")), fmt.Sprintf("d=1:%s:4:c", hx("ta")), fmt.Sprintf("d=2:%s:5:-", hx("tb"))}
+	progs := [][]string{
+		{hA, hB, "RUN", "T0", hA2, "RUN"},
+		{"D1", "E2", hA, hB, "RUN", "T0", hA2, "RUN"},
+		{"D1", hA, hB, "RUN", "T0", "D2", "E3", hA3, "RUN", "RUN"},
+		{"D1", "E2", hA, hB, "RUN", "T0", hA2, "RUN", "T2", hA3, "RUN"},
+		{"K", "D1", hA, hB, "RUN", "T0", "RUN", hA2}, // (never the last running handler: the router closes itself then)
+	}
+	for _, pr := range progs {
+		toks := append(append(append([]string{}, head...), pr...), ds...)
+		emit("route "+strings.Join(toks, " "), "stop_and_re_add_under_the_same_name")
+	}
+}
+
 type job struct{ req, tag string }
 
 func main() {
@@ -1332,6 +1413,20 @@ func main() {
 	stepCases(emit)
 	appWrappedCases(emit)
 	failingDecoratorCases(emit)
+	stopAndReAddCases(emit)
+	{
+		// a handler registered with a nil publisher on a router with watermill's own MessageTransformPublisherDecorator (and
+		// recording decorators): nothing to decorate - Nack when the chain returns messages, Ack when it returns none,
+		// nothing published, and the router closes without a crash
+		hx := wh.HexS
+		for _, mw := range []int{1, 0} {
+			toks := []string{"S1=" + hx("main.subA"), "P1=" + hx("main.pubA"), "M1", "D2", "M3",
+				fmt.Sprintf("h=%s:1:%s:nil:%s:%d", hx("nopub"), hx("ta"), hx("oa"), mw),
+				fmt.Sprintf("h=%s:1:%s:p1:%s:0", hx("B"), hx("ta"), hx("ob")),
+				fmt.Sprintf("d=1:%s:1:f0", hx("ta")), fmt.Sprintf("d=1:%s:2:-", hx("ta"))}
+			emit("route "+strings.Join(toks, " "), "nil_publisher_with_transform_publisher_decorator")
+		}
+	}
 	reqs := make([]string, len(jobs))
 	for i, j := range jobs {
 		reqs[i] = j.req
@@ -1373,6 +1468,10 @@ func main() {
 				out.Count("ops.RunHandlers")
 			case t == "K":
 				out.Count("ops.app_values_under_string_keys")
+			case t[0] == 'T' && !strings.Contains(t, "="):
+				out.Count("ops.handler_stopped")
+			case t[0] == 'M' && !strings.Contains(t, "="):
+				out.Count("ops.transform_publisher_decorator")
 			case t[0] == 'D' && !strings.Contains(t, "="):
 				out.Count("ops.AddPublisherDecorators")
 				if strings.HasSuffix(t, "!") {
